@@ -3,12 +3,21 @@
 (* (one-series run), or every pair of equal-length series (Pairs = TRUE).      *)
 EXTENDS Agg, Json
 
-CONSTANTS ValSet, ValSet2
+CONSTANTS ValSet, ValSet2, TiesLen
 \* a signed alphabet for cfg files (which cannot hold negative literals)
 SignedSet == {0 - 1, 0, 2}
 SignedSet3 == {0 - 2, 0, 1, 3}
 ElemDef  == ValSet \cup {NULL}
 Elem2Def == ValSet2 \cup {NULL}
+
+\* tie-heavy samples beyond the enumeration bound: every series of length 4..TiesLen over {-1, 0, 1}
+\* (no nulls, min_periods 0).  Heavy ties make the higher moments hit special values exactly - an
+\* excess kurtosis of exactly 0, a skewness of exactly 0 - which guards written for degenerate input
+\* must not mistake for their own markers.
+TiesInit ==
+    /\ s \in UNION {[1..k -> {0 - 1, 0, 1}] : k \in 4..TiesLen}
+    /\ t = s /\ mp = 0 /\ i = 0 /\ f = F0
+TiesSpec == TiesInit /\ [][Next]_vars /\ WF_vars(Next)
 
 Emit1 ==
     (Done /\ ~Pairs) =>
